@@ -42,9 +42,9 @@ type Solver struct {
 	// hist is the script that reproduces the current assertion stack in a
 	// fresh solver (declarations, definitions, assertions, pushes); it feeds
 	// the fallback solvers when the main process answers unknown.
-	hist      []string
-	noHist    bool
-	Fallbacks [3]int // fallback verdicts by Result
+	hist       []string
+	noHist     bool
+	Fallbacks  [3]int // fallback verdicts by Result
 	NoFallback bool
 }
 
@@ -386,7 +386,6 @@ func parseValue(resp string) *big.Int {
 	}
 	return nil
 }
-
 
 // fallback re-runs the current query (assertion stack + extra assertions) in
 // fresh one-shot processes of the other installed solvers. The main process
